@@ -41,7 +41,7 @@ func (g *c11Gen) u() int { g.uniq++; return 10 + g.uniq }
 
 // val: the value stored by the next write — mostly a fresh number, one time
 // in four a value of another kind (nil first: a store of nil is a store).
-var c11OddVals = []string{"nil", bn.KwFalse, "nothing()", "\"\"", "0", bn.KwTrue, "\"s\"", "0.5", "{}", "[]", "wr"}
+var c11OddVals = []string{"nil", bn.KwFalse, "nothing()", "\"\"", "0", bn.KwTrue, "\"s\"", "0.5", "{}", "[]", "wr", "((1 << 62) | 1)", "(~(1 << 63))", "(-0)", "(2 ** 1024)"}
 
 func (g *c11Gen) val() (string, gElem) {
 	if g.pick("valKind", 4) != 1 {
@@ -281,7 +281,8 @@ func (g *c11Gen) action() {
 	}
 }
 
-var c11Faults = []string{"%s[(2 ** 1024)]", "%s[(2 ** 1024) - (2 ** 1024)]", "%s[2 ** 63]", "%s[9007199254740992]", "%s[0 - (2 ** 63)]", "%s[1 / 3]", bn.BRemove + "(%s, (2 ** 1024))", "%s[0.999999999999]", "%s[1 << 40]", "%s[~0]",
+var c11Faults = []string{"%s[~(1 << 63)]", "%s[~(1 << 63)] = 1", bn.BRemove + "(%s, ~(1 << 63))", "%s[1 << 63]", bn.BRemove + "(%s, 1 << 63)", "%s[(1 << 62) | 1]", bn.BRemove + "(%s, 4294967296)", "%s[4294967296]", "%s[0 - 4294967296] = 1",
+	"%s[(2 ** 1024)]", "%s[(2 ** 1024) - (2 ** 1024)]", "%s[2 ** 63]", "%s[9007199254740992]", "%s[0 - (2 ** 63)]", "%s[1 / 3]", bn.BRemove + "(%s, (2 ** 1024))", "%s[0.999999999999]", "%s[1 << 40]", "%s[~0]",
 	"%s[\"1.5\"]", "%s[\"0.5\"] = 1", bn.BRemove + "(%s, \"0.9\")", "%s[\"-1\"]", "%s[\"99\"]", "%s[\"১.৫\"]", "%s[\"1e-1\"]", "%s[\"nan\"]", bn.BRemove + "(%s, \"-0.5\")", "%s[\"-0.5\"] = 1",
 	"%s[0 - 1]", "%s[%s(%s)]", "%s[%s(%s) + 7]", "%s[0.5]", "%s[nil]", "%s[" + bn.KwTrue + "]", "%s[\"k\"]", "%s[[0]]",
 	"%s[0 - 1] = 1", "%s[%s(%s)] = 1", "%s[0.5] = 1", "%s[nil] = 1", "%s[0 - 1] = nil", "%s[%s(%s)] = nil", "%s[%s(%s) + 7] = nothing()", "%s[0.5] = nil", "%s[\"k\"] = " + bn.KwFalse + "", "%s[nil] = nil",
